@@ -380,6 +380,31 @@ def spec_request(env, state, view, tok=None, ctx="py"):
     return r
 
 
+def upd_wf(env, st) -> bool:
+    """`Aave.updWF env state` (lean/Demeter/Aave/WF.lean) evaluated on the bar and the implementation's dumped state — the
+    computable hypothesis of `C04_aave_update_completes` / `C13_liquidate_never_raises_debt_exceeds_wf`: every token the bar lists
+    has a price, a risk row and non-zero indices; every held token has positive indices and price and non-negative LTV / LT /
+    bonus; no scaled balance is negative; a supply used as collateral has a positive liquidation threshold.  The driver answers the
+    same predicate (`wf`) for every step; the harness compares the two and requires `update()` not to raise when it holds."""
+    status, price, risk = env["status"], env["price"], env["risk"]
+    for t in env["tokens"]:
+        if t not in price or t not in risk or status[t]["liqIdx"] == 0 or status[t]["varIdx"] == 0:
+            return False
+
+    def row_ok(k):
+        if k not in status or k not in price or k not in risk:
+            return False
+        return (status[k]["liqIdx"] > 0 and status[k]["varIdx"] > 0 and price[k] > 0 and risk[k]["ltv"] >= 0 and risk[k]["lt"] >= 0
+                and risk[k]["bonus"] >= 0)
+    for k, v in st["supplies"]:
+        if Fraction(v["base"]) < 0 or not row_ok(k) or (v["coll"] and not risk[k]["lt"] > 0):
+            return False
+    for k, v in st["borrows"]:
+        if Fraction(v["base"]) < 0 or not row_ok(k):
+            return False
+    return True
+
+
 # ------------------------------------------------------------------------------------------ generators
 def dec_digits(rng, lo: float, hi: float, digits: int) -> D:
     """uniform in [lo, hi] with `digits` decimal places"""
